@@ -178,6 +178,7 @@ def check(chk):
               'reader selects the TypeIO by "@type"', 'reader dispatch changed')
     chk.require('C40.closure', 30)
     _registry_rule(chk, m)
+    _hashable_rule(chk, m)
 
 
 def _bases(classes, t):
@@ -320,3 +321,31 @@ def _registry_rule(chk, mod):
     cls_users = [st for cls in mod.tree.body if isinstance(cls, ast.ClassDef) for st in cls.body if isinstance(st, ast.Assign) and 'get_type_definitions()' in src(st.value)]
     if len(users) + len(cls_users) < 1:
         raise AnalysisError('C40.registry: no user of get_type_definitions found')
+
+
+def _hashable_rule(chk, mod):
+    """g:Set members and g:Map keys are put into a Python set / dict by the reader: a TypeIO whose deserialize returns an unhashable object
+    (bytearray(...), a list, dict or set display / call) cannot come back inside them"""
+    chk.rule('C40.hashable', 'what a TypeIO.deserialize returns can be a member of the set / a key of the dict that SetTypeIO / MapTypeIO build (no bytearray, list, dict, set), '
+                             'or those readers guard the construction')
+    unhash = []
+    for cls in mod.tree.body:
+        if not (isinstance(cls, ast.ClassDef) and cls.name.endswith('TypeIO') and cls.name not in ('SetTypeIO', 'MapTypeIO', 'ListTypeIO', 'JsonMapTypeIO')):
+            continue
+        # value types only: the TypeIOs that name a CQL type (graph structure readers - properties, paths - are not written by the serializer)
+        if not any(isinstance(st, ast.Assign) and src(st.targets[0]) == 'cql_type' for st in cls.body):
+            continue
+        for fn in cls.body:
+            if isinstance(fn, ast.FunctionDef) and fn.name == 'deserialize':
+                for r in body_walk(fn):
+                    if isinstance(r, ast.Return) and r.value is not None:
+                        v = r.value
+                        if (isinstance(v, ast.Call) and isinstance(v.func, ast.Name) and v.func.id in ('bytearray', 'list', 'dict', 'set')) or isinstance(v, (ast.List, ast.Dict, ast.Set, ast.ListComp, ast.DictComp, ast.SetComp)):
+                            unhash.append((cls.name, src(v)[:50]))
+    st_ = mod.func('SetTypeIO.deserialize')
+    mp_ = mod.func('MapTypeIO.deserialize')
+    guarded = all(any(isinstance(t, ast.Try) and any(h.type is None or 'TypeError' in src(h.type) for h in t.handlers) for t in body_walk(f_)) for f_ in (st_, mp_))
+    scalar_unhash = [u for u in unhash if u[0] not in ('TupleTypeIO', 'UserTypeIO', 'PathTypeIO')]
+    chk.judge(not scalar_unhash or guarded, 'C40.hashable', st_, 'scalar TypeIOs return hashable values (or set / map construction is guarded)',
+              '%s deserialize to an unhashable object while SetTypeIO.deserialize builds set(...) and MapTypeIO.deserialize uses the decoded key as a dict key: a set of such values, or a map '
+              'keyed by them, is written by the serializer and raises TypeError when it is read back' % sorted(set(u[0] for u in scalar_unhash)))
